@@ -2,7 +2,10 @@
 
 package main
 
-import "github.com/crillab/gophersat/solver"
+import (
+	"github.com/crillab/gophersat/explain"
+	"github.com/crillab/gophersat/solver"
+)
 
 const hooksOn = true
 
@@ -24,4 +27,12 @@ func traceSnaps(s *solver.Solver) []Snap {
 			Props: v.Props, NewLvl: v.NewLvl, NbOrig: v.NbOrig, CP: v.CP, Restarts: v.Restarts, HeapContent: v.HeapContent, HeapIndices: v.HeapIndices, Watched: v.Watched, PBFlags: v.PBFlags}
 	}
 	return res
+}
+
+func pbSetOp(op int, w1 []int, c1 int, w2 []int, c2 int, model, trail []int, a, b int) (int, int) {
+	return solver.VerifPBSetOp(op, w1, c1, w2, c2, model, trail, a, b)
+}
+
+func explainUnsat(clauses [][]int, nb int, units []int, tagged []bool) bool {
+	return explain.VerifUnsat(clauses, nb, units, tagged)
 }
